@@ -406,6 +406,28 @@ func runC04(c *core.Ctx, o Options) {
 	// F5 (who may dispatch): DefaultHandler.serve runs on the handler's own goroutine only — it is called from Run and from the
 	// drain helper Run ends with, never from the pump side (ServeIncoming) or anywhere else
 	if sv, run := c.Func("", "DefaultHandler.serve"), c.Func("", "DefaultHandler.Run"); c.Anchor("dispatcher", sv != nil && run != nil, "DefaultHandler.serve, Run", posOf(sv)) {
+		// what runs on Run's goroutine: Run and everything it reaches through plain static calls inside the package (its drain
+		// helper, steps cut out of its select arms) — not what it starts with go
+		runSide := map[*ssa.Function]bool{}
+		{
+			work := []*ssa.Function{run}
+			for len(work) > 0 {
+				f := work[0]
+				work = work[1:]
+				if f == nil || runSide[f] || f.Blocks == nil || f.Pkg != run.Pkg {
+					continue
+				}
+				runSide[f] = true
+				an.AllInstrs(f, func(in ssa.Instruction) {
+					if _, isGo := in.(*ssa.Go); isGo {
+						return
+					}
+					if cc := an.CallOf(in); cc != nil {
+						work = append(work, an.StaticCallee(cc))
+					}
+				})
+			}
+		}
 		n := 0
 		for _, fn := range fns {
 			an.AllInstrs(fn, func(in ssa.Instruction) {
@@ -418,8 +440,7 @@ func runC04(c *core.Ctx, o Options) {
 				for root.Parent() != nil {
 					root = root.Parent()
 				}
-				owner, _ := an.LogicalOwner(root)
-				okCaller := root == run || owner == run || callsDirect(run, root)
+				okCaller := runSide[root]
 				_, isGo := in.(*ssa.Go)
 				c.Check(okCaller && !isGo, "F5", an.NameOf(fn), "messages are dispatched by the handler's own goroutine (Run and its drain helper) only", in.Pos(), "called from Run / processRemainingIncoming",
 					an.NameOf(fn)+" calls DefaultHandler.serve: the message is dispatched on another goroutine than Run's, concurrently with and ahead of the messages still waiting in the handler's queue")
